@@ -676,20 +676,30 @@ def _ls_cases(tier):
                        min_size=8, max_size=8),
         scale_exp=st.sampled_from([0, 0, -3, -1, 1, 3]),
         seed=seeds,
+        # pilot instants on which nothing is sent (comb / punctured pilots):
+        # exactly-zero columns, the matrix keeps full row rank
+        zero_cols=st.sampled_from([0, 0, 1, 2, 3]),
         conv=st.sampled_from(["2d", "3d_shared", "3d_per"]),
         nreal=st.integers(1, 3),
         real=st.sampled_from([False, False, False, True]),
     ))
 
 
-def _pilot_matrix(rs, Nt, Np, sv, real):
+def _pilot_matrix(rs, Nt, Np, sv, real, nzero=0):
     def g(*shape):
         if real:
             return rs.randn(*shape)
         return rs.randn(*shape) + 1j * rs.randn(*shape)
+    Nu = Np - nzero                          # instants that carry a pilot
     U = np.linalg.qr(g(Nt, Nt))[0]
-    V = np.linalg.qr(g(Np, Nt))[0]           # Np x Nt, orthonormal columns
-    return U @ np.diag(sv) @ V.conj().T      # Nt x Np, singular values sv
+    V = np.linalg.qr(g(Nu, Nt))[0]           # Nu x Nt, orthonormal columns
+    s = U @ np.diag(sv) @ V.conj().T         # Nt x Nu, singular values sv
+    if nzero:
+        full = np.zeros((Nt, Np), dtype=s.dtype)
+        keep = np.sort(rs.permutation(Np)[:Nu])
+        full[:, keep] = s
+        s = full
+    return s
 
 
 def _check_ls(case, ctx):
@@ -709,7 +719,10 @@ def _check_ls(case, ctx):
               "ls:square_pilots" if Np == Nt else "ls:wide_pilots",
               "ls:kappa<10" if kappa < 10 else
               ("ls:kappa<100" if kappa < 100 else "ls:kappa>=100"))
-    ctx.nontrivial(Nt >= 2)
+    nz = min(int(case.get("zero_cols", 0)), Np - Nt)
+    if nz:
+        ctx.label("ls:zero_pilot_instants")
+    ctx.nontrivial(Nt >= 2 or nz > 0)
     rs = np.random.RandomState(case["seed"])
 
     def chan():
@@ -718,15 +731,15 @@ def _check_ls(case, ctx):
         return (rs.randn(Nr, Nt) + 1j * rs.randn(Nr, Nt)) / math.sqrt(2.0)
 
     if conv == "2d":
-        s = _pilot_matrix(rs, Nt, Np, sv, real)
+        s = _pilot_matrix(rs, Nt, Np, sv, real, nz)
         H = chan()
         Y = H @ s
     elif conv == "3d_shared":
-        s = _pilot_matrix(rs, Nt, Np, sv, real)
+        s = _pilot_matrix(rs, Nt, Np, sv, real, nz)
         H = np.array([chan() for _ in range(nreal)])
         Y = H @ s
     else:
-        s = np.array([_pilot_matrix(rs, Nt, Np, sv, real)
+        s = np.array([_pilot_matrix(rs, Nt, Np, sv, real, nz)
                       for _ in range(nreal)])
         H = np.array([chan() for _ in range(nreal)])
         Y = H @ s
